@@ -99,5 +99,24 @@ Theorem C04_solve_strategies : forall (T : Type) (K : ops T), lawful_order K ->
   | P2 => Some (argmin_list K (one K) (vals_of K (r_probs r) (nth i (g_trans g) [])))
   | PR => None
   end.
-Proof. intros T K L. exact (reach_strategies_of_solve K L). Qed.
+Proof. intros T K L. exact (reach_strategies_of_solve K (lawful_scans_are_filters K L)). Qed.
 Print Assumptions C04_solve_strategies.
+
+(** the implementation's own arithmetic: binary64 (instance F = PrimFloat). The comparisons obey the
+    order laws on every non-NaN value and NaN is inert, so the scans are arg-max / arg-min filters on ALL
+    inputs (Proofs/FloatLaws.v, from the standard library's FloatAxioms.ltb_spec / eqb_spec); hence the
+    end-to-end statement holds of the model instance that is bit-exact with the code. *)
+From CR Require Import Proofs.LawsOn Proofs.FloatLaws Props.C04F.
+Theorem C04_scans_binary64 : scans_are_filters fops.
+Proof. intros m0 l. exact (C04F_scan_is_argmax_binary64_all m0 l). Qed.
+Theorem C04_solve_strategies_binary64 : forall fuel (g : game (T:=PrimFloat.float)) prune r i,
+  wf_game fops g -> solve_fuel fops fuel g prune = Ok r -> i < nstates g ->
+  nth i (r_reachs r) None =
+  match nth i (g_players g) PR with
+  | P1 => Some (argmax_list fops (zero fops) (vals_of fops (r_probs r) (nth i (g_trans g) [])))
+  | P2 => Some (argmin_list fops (one fops) (vals_of fops (r_probs r) (nth i (g_trans g) [])))
+  | PR => None
+  end.
+Proof. exact (reach_strategies_of_solve fops C04_scans_binary64). Qed.
+Print Assumptions C04_scans_binary64.
+Print Assumptions C04_solve_strategies_binary64.
